@@ -335,13 +335,17 @@ func pickCmd(r *rand.Rand, o Obs, failMode bool) string {
 // stress: real scheduler, many workers, slow/stalled consumer, Stop racing everything.
 
 type stressPacer struct {
-	n     uint64
-	limit uint64
+	n          uint64
+	limit      uint64
+	onSchedule bool
 }
 
 func (p *stressPacer) Pace(_ time.Duration, hits uint64) (time.Duration, bool) {
 	if hits >= p.limit {
 		return 0, true
+	}
+	if p.onSchedule && hits%3 != 0 {
+		return time.Microsecond, false // "on schedule": a tiny positive wait
 	}
 	return 0, false
 }
@@ -394,7 +398,7 @@ func runStress(j Job) Outcome {
 		stopAt = r.Intn(j.Len + 1)
 	}
 	nStoppers := 1 + r.Intn(3)
-	res := atk.Attack(tr, &stressPacer{limit: limit}, 0, "stress")
+	res := atk.Attack(tr, &stressPacer{limit: limit, onSchedule: j.Seed%2 == 0}, 0, "stress")
 	var got []uint64
 	var stopReturns []bool
 	var smu sync.Mutex
@@ -446,7 +450,7 @@ func runStress(j Job) Outcome {
 		out.Findings = append(out.Findings, Finding{Kind: "attack_does_not_end",
 			What:     "stress: the attack keeps releasing hits after the targeter has failed",
 			Expected: fmt.Sprintf("<= %d results (targeter fails from call %d on)", failAfter+int64(j.Max)+64, failAfter+1), Observed: fmt.Sprint(len(got)),
-			Key:      map[string]interface{}{"targeter_error_is_ErrNoTargets": failNoTargets}})
+			Key: map[string]interface{}{"targeter_error_is_ErrNoTargets": failNoTargets}})
 	}
 	if !ok {
 		out.Findings = append(out.Findings, Finding{Kind: "results_not_exactly_started_hits",
